@@ -95,9 +95,14 @@ def get_ranges(headervalue, content_length):
         return None
 
 
+_range_pos_re = re.compile('[0-9]+')
+
+
 def _range_pos(value):
     """Return the int for a byte position or suffix length (1*DIGIT)."""
-    if not value.isdigit():
+    # 1*DIGIT means ASCII digits; str.isdigit() and int() also take
+    # other scripts' digits.
+    if not _range_pos_re.fullmatch(value):
         raise ValueError('Invalid byte position %r' % value)
     return int(value)
 
@@ -114,6 +119,10 @@ def _get_ranges(headervalue, content_length):
             start = _range_pos(start)
             if stop:
                 stop = _range_pos(stop)
+                if stop < start:
+                    # Syntactically invalid (see the rfc quote in
+                    # get_ranges), wherever the entity ends.
+                    return None
             else:
                 stop = content_length - 1
             if start >= content_length:
@@ -126,9 +135,6 @@ def _get_ranges(headervalue, content_length):
                 # resource), it SHOULD return a response code of 416
                 # (Requested range not satisfiable)."
                 continue
-            if stop < start:
-                # Syntactically invalid (see the rfc quote in get_ranges).
-                return None
             # A last-byte-pos at or beyond the end means "up to the end".
             result.append((start, min(stop, content_length - 1) + 1))
         else:
